@@ -108,6 +108,25 @@ static void check_median(int n, int kind, vh::Rng& r) {
     }
 }
 
+//median of samples drawn from a small alphabet (many ties), in random order
+static void check_median_ties(int n, int alphabet, vh::Rng& r) {
+    arr_real x(n);
+    for (int i = 0; i < n; ++i) {
+        x[i] = double(r.below(alphabet)) * 0.5 - 1.0;
+    }
+    vh::begin_case("median_ties", "n=%d alphabet=%d", n, alphabet);
+    const arr_real x0 = x;
+    const double got = dl::median(x);
+    const double want = brute_median(x.to_vec());
+    vh::Hasher hh;
+    hh.s("median_ties").i(n).i(alphabet).u64(hash_arr(x));
+    vh::count(hh.get(), true);
+    vh::obs_add("median_tied_inputs");
+    if (!(got == want) || !bit_equal(x, x0)) {
+        vh::violation(vh::fmt("C16/median/%s", n % 2 ? "odd" : "even"), vh::fmt("median(x[%d], values from an alphabet of %d) = %.17g, brute force %.17g (or input modified)", n, alphabet, got, want));
+    }
+}
+
 static void check_median_filter(int order, int kind, int N, vh::Rng& r) {
     const double init = (kind % 2) ? 0.0 : r.uni(-2, 2);
     arr_real x = make_content(r, N, kind);
@@ -305,6 +324,14 @@ int main(int argc, char** argv) {
         for (int k = 0; k < 6; ++k) {
             check_sort(n, k, r);
             check_median(n, k, r);
+        }
+        if (n >= 3) {
+            const int reps = thorough ? 8 : 3;
+            for (int a : {2, 3, 5, 8, std::max(2, n / 4)}) {
+                for (int t = 0; t < reps; ++t) {
+                    check_median_ties(n, a, r);
+                }
+            }
         }
     }
     vh::sample("sort/median: every length 1..2000 (quick: 1..300 + a residue class) x content {distinct, repeated, sorted, reversed, constant, plateaus with signed zeros} x {ascend, descend}");
